@@ -1498,6 +1498,20 @@ def resample_items(g, ft, dm):
         env = {inp: []}
         scales, mcall, prologue = [], [], []
         dims = None
+        MD = ('idft2', 'idft2_backprop', 'dft2', 'dft2_backprop')
+
+        def sized(node):
+            """`<array>.size` of a running array -> a marker saying whether that array still has the extents of the routine's input
+            or already those of the matrix-DFT result (names are re-bound along the chain: `fbar` is m x n after the inverse FFT)"""
+            import copy
+
+            class S(ast.NodeTransformer):
+                def visit_Attribute(self, n):
+                    if n.attr == 'size' and isinstance(n.value, ast.Name) and n.value.id in env:
+                        side = 'res' if any(t in MD for t in env[n.value.id]) else 'inp'
+                        return ast.copy_location(ast.Name(id=f'size_{side}_', ctx=ast.Load()), n)
+                    return self.generic_visit(n)
+            return ast.fix_missing_locations(S().visit(copy.deepcopy(node)))
 
         def ev(e):
             if isinstance(e, ast.Name) and e.id in env:
@@ -1544,11 +1558,11 @@ def resample_items(g, ft, dm):
                                 if l_in and not any(isinstance(n, ast.Name) and n.id in env for n in ast.walk(val.right)):
                                     sc = val.right if isinstance(val.op, ast.Mult) else ast.BinOp(ast.Constant(1), ast.Div(), val.right)
                                     env[tgt.id] = env[val.left.id] + ['scale']
-                                    scales.append(sc)
+                                    scales.append(sized(sc))
                                     continue
                                 if r_in and isinstance(val.op, ast.Mult) and not any(isinstance(n, ast.Name) and n.id in env for n in ast.walk(val.left)):
                                     env[tgt.id] = env[val.right.id] + ['scale']
-                                    scales.append(val.left)
+                                    scales.append(sized(val.left))
                                     continue
                             raise
                         prologue.append(ast.unparse(st))      # a scalar local (M, N, ...)
@@ -1556,11 +1570,11 @@ def resample_items(g, ft, dm):
             if isinstance(st, ast.AugAssign) and isinstance(st.target, ast.Name) and st.target.id in env:
                 if isinstance(st.op, ast.Mult):
                     env[st.target.id] = env[st.target.id] + ['scale']
-                    scales.append(st.value)
+                    scales.append(sized(st.value))
                     continue
                 if isinstance(st.op, ast.Div):
                     env[st.target.id] = env[st.target.id] + ['scale']
-                    scales.append(ast.BinOp(ast.Constant(1), ast.Div(), st.value))
+                    scales.append(sized(ast.BinOp(ast.Constant(1), ast.Div(), st.value)))
                     continue
                 raise Untranslatable(f'unrecognised operation on the data: {ast.unparse(st)[:70]}')
             if isinstance(st, ast.Return):
@@ -1589,8 +1603,8 @@ def resample_items(g, ft, dm):
             envs = {'zoom[0]': 'zy', 'zoom[1]': 'zx', dims[0]: 'm', dims[1]: 'n'}
             envs.update(size_env)
             return Tr(envs, mode='num', funcs={'np.sqrt': 'sqrtf', 'truenp.sqrt': 'sqrtf', 'math.sqrt': 'sqrtf'}).expr(node)
-        sf = scale(fs[0], fd, {'f.size': '(m * n)', 'M': 'mm', 'N': 'nn'})
-        sb = scale(bs[0], bd, {'fbar.size': '(mm * nn)', 'Fbar.size': '(m * n)'})
+        sf = scale(fs[0], fd, {'size_inp_': '(m * n)', 'size_res_': '(mm * nn)', 'M': 'mm', 'N': 'nn'})
+        sb = scale(bs[0], bd, {'size_inp_': '(mm * nn)', 'size_res_': '(m * n)'})
         # geometry: same prologue (identity at zoom == 1 apart from the name, zoom normalisation), the matrix DFT is asked for
         # (zoom, (int(m zoom_y), int(n zoom_x))) forward and (zoom, in_shape) backward, neither passes a shift
         fcall, bcall = fm[0], bm[0]
